@@ -8,6 +8,7 @@ use crate::data::*;
 use crate::gen::{self, Dec, Ty};
 use crate::model::eval::{self as me, MErr};
 use crate::pool;
+use reval::expr::Index;
 use reval::prelude::*;
 
 #[derive(Clone, Copy, PartialEq, Eq, Debug)]
@@ -240,7 +241,7 @@ fn replace_literal(e: &Expr, target: usize, repl: &Value, k: &mut usize) -> Expr
     }
 }
 
-fn check_buried(case: &EvalCase) -> Verdict {
+pub(crate) fn check_buried(case: &EvalCase) -> Verdict {
     let o = observe(case);
     super::c02::judge(case, &o.actual, &o.model)
         .map_err(|i| Issue::new(i.sig.replace("table:", "coerce-tree:"), i.msg))
@@ -250,7 +251,7 @@ pub fn run(ctx: &Ctx) {
     ctx.set_rule(
         "Generated: every unary/binary node kind x every ordered pair of a 23-value pool covering the 9 non-None types, always \
          including the values that coincide after coercion (i1 f1 d1 \"1\" true [i1]; i0 f0 d0 \"\" false [] {}), plus if/and/or with \
-         every value as condition/operand (exhaustive); and random fully typed trees in which one literal is replaced by a coinciding \
+         every value as condition/operand (exhaustive); every index step (text key / position, built through the Index variants and through every From impl, with digit-looking texts) over maps with digit keys, lists, strings and the scalar pool (exhaustive); and random fully typed trees in which one literal is replaced by a coinciding \
          value of another type. Oracle: an independent support table (unsupported type tuple => InvalidType; == / != across types => \
          false / true; supported tuple => never InvalidType and result type as defined; only casts change type); buried cases are \
          compared with the reference evaluator. Non-trivial: operand types differ or a non-Bool sits in a Bool position (cells), the \
@@ -327,6 +328,24 @@ pub fn run(ctx: &Ctx) {
         "cell",
     );
 
+    let ic = index_cells();
+    ctx.enumerate(
+        "index-cells",
+        ic.len() as u64,
+        true,
+        |i, acc| {
+            let c = &ic[i as usize];
+            let nt = !matches!((&c.container, c.is_text()), (Value::Map(_), true) | (Value::Vec(_), false)) || (c.is_text() && c.text.parse::<usize>().is_ok());
+            acc.cell(&format!("cell:index:{}", ["map-variant", "vec-variant", "from-str", "from-string", "from-usize"][c.via as usize]), nt);
+            if nt && i % 37 == 0 {
+                acc.sample("cell:index", || c.to_json()["text"].as_str().unwrap_or("").to_string());
+            }
+            check_index_cell(c)
+        },
+        |i| ic[i as usize].to_json(),
+        "indexcell",
+    );
+
     // depth 2 over the coinciding family: every outer kind over every inner cell (e.g. !!i1 must stay a type error)
     let c2 = Cells2::new(vec![
         Value::Int(1),
@@ -389,7 +408,133 @@ pub fn run(ctx: &Ctx) {
     );
 }
 
+// ---- index cells: a text key is never a position and a position never a text key -------------------
+
+/// (container, how the index is built, text or position)
+#[derive(Clone, Debug)]
+struct IndexCell {
+    container: Value,
+    /// 0 Index::Map(text), 1 Index::Vec(pos), 2 Index::from(&str), 3 Index::from(String), 4 Index::from(usize)
+    via: u8,
+    text: String,
+    pos: usize,
+}
+
+const INDEX_TEXTS: [&str; 9] = ["0", "1", "10", "01", "+1", "a", "", "-0", "18446744073709551616"];
+const INDEX_POSITIONS: [usize; 4] = [0, 1, 10, 33];
+
+fn index_containers() -> Vec<Value> {
+    let digits = pool::map(&[
+        ("0", Value::Int(70)),
+        ("1", Value::Int(71)),
+        ("10", Value::Int(72)),
+        ("01", Value::Int(73)),
+        ("+1", Value::Int(74)),
+        ("a", Value::Int(75)),
+        ("", Value::Int(76)),
+    ]);
+    let mut v = vec![
+        digits,
+        pool::map(&[("a", Value::Int(75))]),
+        pool::map(&[]),
+        Value::Vec((0..12).map(|i| Value::Int(100 + i)).collect()),
+        Value::Vec(vec![]),
+        Value::String("0123456789ab".into()),
+    ];
+    v.extend(pool::coinciding());
+    v
+}
+
+fn index_cells() -> Vec<IndexCell> {
+    let mut out = vec![];
+    for c in index_containers() {
+        for t in INDEX_TEXTS {
+            for via in [0u8, 2, 3] {
+                out.push(IndexCell { container: c.clone(), via, text: t.to_string(), pos: 0 });
+            }
+        }
+        for p in INDEX_POSITIONS {
+            for via in [1u8, 4] {
+                out.push(IndexCell { container: c.clone(), via, text: String::new(), pos: p });
+            }
+        }
+    }
+    out
+}
+
+impl IndexCell {
+    fn is_text(&self) -> bool {
+        matches!(self.via, 0 | 2 | 3)
+    }
+    fn expr(&self, through_facts: bool) -> Expr {
+        let idx = match self.via {
+            0 => Index::Map(self.text.clone()),
+            1 => Index::Vec(self.pos),
+            2 => Index::from(self.text.as_str()),
+            3 => Index::from(self.text.clone()),
+            _ => Index::from(self.pos),
+        };
+        let base = if through_facts { Expr::reff("facts") } else { Expr::Value(self.container.clone()) };
+        Expr::index(base, idx)
+    }
+    fn to_json(&self) -> serde_json::Value {
+        serde_json::json!({"index_cell": {"container": value_to_json(&self.container), "via": self.via, "text": self.text, "pos": self.pos},
+            "text": format!("{:?} via {} applied to {}", if self.is_text() { self.text.clone() } else { self.pos.to_string() },
+                ["Index::Map", "Index::Vec", "Index::from(&str)", "Index::from(String)", "Index::from(usize)"][self.via as usize], show_value(&self.container))})
+    }
+    fn from_json(j: &serde_json::Value) -> Option<Self> {
+        let c = j.get("index_cell")?;
+        Some(IndexCell {
+            container: value_from_json(c.get("container")?)?,
+            via: c.get("via")?.as_u64()? as u8,
+            text: c.get("text")?.as_str()?.to_string(),
+            pos: c.get("pos")?.as_u64()? as usize,
+        })
+    }
+}
+
+fn check_index_cell(c: &IndexCell) -> Verdict {
+    // the support table: text key on a map, position on a list; nothing else (the container is never None here)
+    let want: Option<Value> = match (&c.container, c.is_text()) {
+        (Value::Map(m), true) => Some(m.get(&c.text).cloned().unwrap_or(Value::None)),
+        (Value::Vec(v), false) => Some(v.get(c.pos).cloned().unwrap_or(Value::None)),
+        _ => None,
+    };
+    for through_facts in [false, true] {
+        let case = EvalCase::plain(c.expr(through_facts), if through_facts { c.container.clone() } else { Value::None });
+        let r = run_case(&case)?;
+        let ok = match (&want, &r) {
+            (Some(v), Ok(x)) => same_value(v, x, true),
+            (None, Err(reval::Error::InvalidType)) => true,
+            _ => false,
+        };
+        if !ok {
+            return Err(Issue::new(
+                format!("coerce:index({},{})", type_name(&c.container), if c.is_text() { "text" } else { "position" }),
+                format!(
+                    "a text key addresses map entries only and a position list items only, whatever the text looks like: expected {}, implementation returned {}; case {}",
+                    match &want {
+                        Some(v) => show_value(v),
+                        None => "a type error".into(),
+                    },
+                    me::show_actual(&r),
+                    c.to_json()["text"]
+                ),
+            ));
+        }
+    }
+    Ok(())
+}
+
 pub fn replay(j: &serde_json::Value) -> Option<Verdict> {
+    if j.get("index_cell").is_some() {
+        return IndexCell::from_json(j).map(|c| check_index_cell(&c));
+    }
     let c = EvalCase::from_json(j)?;
     Some(if j.get("buried").and_then(|b| b.as_bool()).unwrap_or(false) { check_buried(&c) } else { check_cell(&c) })
+}
+
+/// Entry point of the `set_diff` fuzz target.
+pub(crate) fn fuzz_bytes(bytes: &[u8]) -> Verdict {
+    check_buried(&buried_case(bytes))
 }
